@@ -133,6 +133,11 @@ func (c *gctx) buildGo(g *G, env []*ast.SExpr) gomini.Goal {
 			args[i] = a.close(env)
 		}
 		rel := relLib[g.R]
+		if rel.Name == "nevero" {
+			// a silent search that never ends, as gomini's own tests write it: a direct recursion without a suspension would
+			// only overflow the goroutine's stack
+			return func(ctx context.Context, s *gomini.State, ss gomini.Stream) { <-ctx.Done() }
+		}
 		return func(ctx context.Context, s *gomini.State, ss gomini.Stream) {
 			benv := make([]*ast.SExpr, len(args))
 			for i, a := range args {
@@ -322,6 +327,11 @@ func c06Programs(cfg *Config) []*G {
 		gConjPlus(false, gDisj(gEq(ptB(0), ptAtom(ast.NewInt(1))), gEq(ptB(0), ptAtom(ast.NewInt(2)))), gCall(1), gEq(ptB(0), ptAtom(ast.NewInt(2)))),
 		gConjPlus(false, gDisj(gEq(ptB(0), ptAtom(ast.NewInt(1))), gEq(ptB(0), ptAtom(ast.NewInt(2)))), gCall(1), gEq(ptB(0), ptAtom(ast.NewInt(1)))),
 		gFresh(gConjPlus(false, gDisjPlus(false, gEq(ptB(0), ptAtom(ast.NewInt(1))), gEq(ptB(0), ptAtom(ast.NewInt(2))), gEq(ptB(0), ptAtom(ast.NewInt(3)))), gCall(2, ptB(1)), gEq(ptB(0), ptAtom(ast.NewInt(3))))),
+		// a condition with one answer whose own search never ends: the then-branch runs on that answer all the same
+		gIfte(gDisj(gEq(ptB(0), ptAtom(ast.NewInt(1))), gCall(0)), gSucc(), gFail()),
+		gIfte(gDisj(gCall(0), gEq(ptB(0), ptAtom(ast.NewInt(1)))), gEq(ptB(0), ptAtom(ast.NewInt(1))), gFail()),
+		gIfte(gDisj(gEq(ptB(0), ptAtom(ast.NewInt(1))), gCall(0)), gFresh(gCall(2, ptB(0))), gFail()),
+		gConj(gEq(ptB(0), ptAtom(ast.NewInt(5))), gIfte(gFresh(gCall(2, ptB(0))), gSucc(), gFail())),
 		// infinite / silent
 		gCall(2, ptB(0)),
 		gDisj(gCall(2, ptB(0)), gCall(3, ptB(0))),
@@ -443,11 +453,13 @@ func runC06(cfg *Config) *Report {
 						rep.violate(i, "unsound-answer", desc, fmt.Sprintf("%s: delivered %s, which does not satisfy the formula (reference search with the query bound to it finds nothing)", sc, ro.shows[j]))
 					}
 				}
-				if ro.how == "timeout" && len(ref2) >= 3 {
+				// any requested finite number of answers that exist is delivered in finite time, also when the rest of the search never ends
+				need := min(3, len(ref2))
+				if ro.how == "timeout" && len(ro.shows) < need {
 					retry()
 				}
-				if ro.how == "timeout" && len(ref2) >= 3 {
-					rep.violate(i, "answers-not-delivered", desc, fmt.Sprintf("%s: only %d of the first 3 answers arrived in 2s, and again in 8s, although the formula has at least %d", sc, len(ro.shows), len(ref2)))
+				if ro.how == "timeout" && len(ro.shows) < need {
+					rep.violate(i, "answers-not-delivered", desc, fmt.Sprintf("%s: only %d of the first %d answers arrived in 2s, and again in 8s, although the formula has at least %d", sc, len(ro.shows), need, len(ref2)))
 				}
 			}
 		}
